@@ -203,6 +203,23 @@ func main() {
 					})
 					r.Bound(fmt.Sprintf("alphabet_%d", d.vals), fmt.Sprintf("all pairs of sequences up to length %d", d.maxLen))
 				}
+				long := mc.LongSeqs(3, mc.Pick(r, []int{12, 17, 33, 64, 65, 130}, []int{12, 17, 33, 64, 65, 130, 257, 400}))
+				var nlong int64
+				mc.ParallelFor(len(long), r.Workers, func(i int) {
+					for j := range long {
+						if len(long[i])*len(long[j]) > 70000 {
+							continue
+						}
+						p := pair{long[i], long[j], "=="}
+						if f := checkLCS(p); f != nil {
+							f.Msg = fmt.Sprintf("long inputs (%d and %d elements): %.300s", len(p.A), len(p.B), f.Msg)
+							r.Violation(mc.Case{Harness: "lcs", Trace: mc.J(p), Msg: f.Msg})
+						}
+						atomic.AddInt64(&nlong, 1)
+					}
+				})
+				r.Count("long_structured_pairs", nlong)
+				evals += nlong
 				r.AddEval(evals, evals, evals, rep)
 				r.Rule("LCS and LCSFunc (incl. a custom equality on the 4-letter alphabet) on every ordered pair; non-trivial = pairs of different lengths (argument swap path)")
 				r.Sample(pair{[]int{0, 0}, []int{0}, "=="})
@@ -245,6 +262,22 @@ func main() {
 					})
 					r.Bound(fmt.Sprintf("alphabet_%d", d.vals), fmt.Sprintf("all sequences up to length %d", d.maxLen))
 				}
+				var nlong int64
+				for _, vals := range []int{2, 5, 1000} {
+					long := mc.LongSeqs(vals, mc.Pick(r, []int{20, 33, 64, 65, 100, 300}, []int{20, 33, 64, 65, 100, 300, 1000, 2500}))
+					mc.ParallelFor(len(long), r.Workers, func(i int) {
+						for _, cm := range []string{"natural", "scaled", "reversed"} {
+							c := seqCase{long[i], cm}
+							if f := checkSeq(c); f != nil {
+								f.Msg = fmt.Sprintf("long input (%d elements over %d values): %.300s", len(c.V), vals, f.Msg)
+								r.Violation(mc.Case{Harness: "lis-lnds", Trace: mc.J(c), Msg: f.Msg})
+							}
+							atomic.AddInt64(&nlong, 2)
+						}
+					})
+				}
+				r.Count("long_structured_inputs", nlong)
+				evals += nlong
 				r.AddEval(evals/6, evals, evals, ties)
 				r.Rule("LIS/LISFunc and LNDS/LNDSFunc on every sequence under three comparators (-1/0/+1, 5*(a-b), reversed 2*(b-a)); O(n^2) DP oracle for the optimum; non-trivial = sequences with repeated elements")
 				r.Sample(seqCase{[]int{5, 10, 20, 1}, "scaled"})
